@@ -961,7 +961,7 @@ func (t *ftr) assign(s *ast.AssignStmt) (string, error) {
 		if err != nil {
 			return "", err
 		}
-		st, err := t.assignTo(s.Lhs[0], val)
+		st, err := t.assignVar(s.Lhs[0], val)
 		if err != nil {
 			return "", err
 		}
@@ -1024,7 +1024,7 @@ func (t *ftr) assign(s *ast.AssignStmt) (string, error) {
 		if id, ok := ast.Unparen(l).(*ast.Ident); ok && id.Name == "_" {
 			continue
 		}
-		st, err := t.assignTo(l, vals[i])
+		st, err := t.assignVar(l, vals[i])
 		if err != nil {
 			return "", err
 		}
@@ -1072,8 +1072,15 @@ func (t *ftr) aliasCheck(r ast.Expr) error {
 	return nil
 }
 
-// assignTo gives the state after `lhs = val`; reads inside refer to v
-func (t *ftr) assignTo(lhs ast.Expr, val string) (string, error) {
+// assignTo gives the state after an update of the object that lhs denotes (an element or field is written, or a callee
+// changed it in place); reads inside refer to v
+func (t *ftr) assignTo(lhs ast.Expr, val string) (string, error) { return t.assignTo1(lhs, val, false) }
+
+// assignVar gives the state after the assignment statement `lhs = val`: when lhs is a reference parameter itself, the
+// variable stops denoting the caller's object
+func (t *ftr) assignVar(lhs ast.Expr, val string) (string, error) { return t.assignTo1(lhs, val, true) }
+
+func (t *ftr) assignTo1(lhs ast.Expr, val string, whole bool) (string, error) {
 	switch l := ast.Unparen(lhs).(type) {
 	case *ast.Ident:
 		if l.Name == "_" {
@@ -1083,7 +1090,7 @@ func (t *ftr) assignTo(lhs ast.Expr, val string) (string, error) {
 		if lv == nil {
 			return "", t.posErr(lhs, "assignment to %s", l.Name)
 		}
-		if lv.caller != nil {
+		if lv.caller != nil && whole {
 			c := lv.caller
 			return app(lv.setter, val, app(c.setter, app("detach", c.proj+" v", lv.proj+" v"), "v")), nil
 		}
